@@ -31,6 +31,96 @@ def toH (s : String) : String :=
 
 def b2s (b : Bool) : String := if b then "1" else "0"
 
+/-! ### the JSON text of string / integer slices, recomputed
+
+    For slice and map values the expected string is the text `encoding/json` gives, supplied by the
+    harness.  For the shapes made of strings or integers only the driver derives that text itself
+    from the raw elements on the case line — `encoding/json`'s `appendString` with HTML escaping as
+    written (Go 1.23): `"` `\` and the control characters get a backslash escape (`\b \f \n \r \t`,
+    `\u00XX` otherwise), `<` `>` `&` become `\u003c` `\u003e` `\u0026`, DEL is copied, a byte that does not
+    start a valid UTF-8 sequence becomes `\ufffd` (one byte consumed), U+2028 / U+2029 are escaped,
+    every other rune is copied — so that the expectation does not rest on one computation. -/
+
+def hexLow (n : Nat) : UInt8 := (if n < 10 then 48 + n else 87 + n).toUInt8
+
+def isCont (b : UInt8) : Bool := 0x80 ≤ b && b ≤ 0xbf
+
+/-- length (2..4) of the valid UTF-8 sequence at the head of `bs` (first byte ≥ 0x80), or 0:
+    `utf8.DecodeRune`'s acceptance table (no overlong forms, no surrogates, nothing above U+10FFFF) -/
+def utf8Len : List UInt8 → Nat
+  | b0 :: b1 :: rest =>
+    if 0xc2 ≤ b0 && b0 ≤ 0xdf then (if isCont b1 then 2 else 0)
+    else if 0xe0 ≤ b0 && b0 ≤ 0xef then
+      let lo : UInt8 := if b0 == 0xe0 then 0xa0 else 0x80
+      let hi : UInt8 := if b0 == 0xed then 0x9f else 0xbf
+      match rest with
+      | b2 :: _ => if lo ≤ b1 && b1 ≤ hi && isCont b2 then 3 else 0
+      | [] => 0
+    else if 0xf0 ≤ b0 && b0 ≤ 0xf4 then
+      let lo : UInt8 := if b0 == 0xf0 then 0x90 else 0x80
+      let hi : UInt8 := if b0 == 0xf4 then 0x8f else 0xbf
+      match rest with
+      | b2 :: b3 :: _ => if lo ≤ b1 && b1 ≤ hi && isCont b2 && isCont b3 then 4 else 0
+      | _ => 0
+    else 0
+  | _ => 0
+
+def jsonQuoteBody : Nat → List UInt8 → List UInt8
+  | 0, _ => []
+  | _, [] => []
+  | fuel + 1, b :: rest =>
+    if b < 0x80 then
+      let esc (c : UInt8) : List UInt8 := [0x5c, c]
+      let out : List UInt8 :=
+        if b == 0x22 || b == 0x5c then esc b
+        else if b == 0x08 then esc 0x62
+        else if b == 0x0c then esc 0x66
+        else if b == 0x0a then esc 0x6e
+        else if b == 0x0d then esc 0x72
+        else if b == 0x09 then esc 0x74
+        else if b < 0x20 || b == 0x3c || b == 0x3e || b == 0x26 then
+          [0x5c, 0x75, 0x30, 0x30, hexLow (b.toNat / 16), hexLow (b.toNat % 16)]
+        else [b]
+      out ++ jsonQuoteBody fuel rest
+    else
+      match utf8Len (b :: rest) with
+      | 0 => "\\ufffd".toUTF8.toList ++ jsonQuoteBody fuel rest
+      | n =>
+        let run := (b :: rest).take n
+        let out := if run == [0xe2, 0x80, 0xa8] then "\\u2028".toUTF8.toList
+                   else if run == [0xe2, 0x80, 0xa9] then "\\u2029".toUTF8.toList else run
+        out ++ jsonQuoteBody fuel (rest.drop (n - 1))
+
+def jsonQuote (bs : List UInt8) : List UInt8 := [0x22] ++ jsonQuoteBody (bs.length + 1) bs ++ [0x22]
+
+def hBytes (t : String) : Option (List UInt8) :=
+  match t.toList with
+  | 'h' :: cs => hexBytes cs
+  | _ => none
+
+def jsonArray (elems : List (List UInt8)) : List UInt8 :=
+  [0x5b] ++ (match elems with
+    | [] => []
+    | e :: es => es.foldl (fun acc x => acc ++ [0x2c] ++ x) e) ++ [0x5d]
+
+/-- a property-value token whose JSON text the driver can derive: is the text on the line that one? -/
+def jsonTokOK (t : String) : Bool :=
+  match t.splitOn ":" with
+  | "j" :: shape :: h :: args =>
+    let given := hBytes h
+    if shape == "xstrs" || shape == "xnamed" || shape == "xany" then
+      (args.mapM hBytes).map (fun es => jsonArray (es.map jsonQuote)) == given
+    else if shape == "xptrs" then
+      (args.mapM hBytes).map (fun es => jsonArray ((es.zipIdx).map fun (e, i) =>
+        if i % 3 == 2 then "null".toUTF8.toList else jsonQuote e)) == given
+    else if shape == "xints" || shape == "xi64s" || shape == "xiany" || shape == "xuints" || shape == "xu64s" then
+      -- canonical decimals (the harness rebuilds the numbers from them): the text is their list
+      if args.all fun a => (a.toInt?.map toString) == some a then
+        some (jsonArray (args.map fun a => a.toUTF8.toList)) == given
+      else false
+    else true
+  | _ => true
+
 /-! ### input: layers -/
 
 def parseSKind : String → Option SKind
@@ -50,8 +140,8 @@ def parsePVal (t : String) : Option PVal :=
   | ["f32", h] => (hexToNat? h).map fun n => .f32 (UInt32.ofNat n)
   | ["f64", h] => (hexToNat? h).map fun n => .f64 (UInt64.ofNat n)
   | ["nil"] => some .nil
-  | ["j", _, h] => (unH h).map .json
-  | ["jbad"] => some .jsonFail
+  | "j" :: _ :: h :: _ => (unH h).map .json     -- x-shapes carry the raw elements behind the text
+  | "jbad" :: _ => some .jsonFail
   | ["x", n] => n.toNat?.map .unsupported
   | ["str", n, h] => do pure (.stringer (← n.toNat?) (← unH h))
   | _ => none
@@ -237,6 +327,22 @@ def splitSemi (ts : Toks) : List Toks :=
     | t :: rest => go rest (t :: cur) acc
   go ts [] []
 
+/-! ### kept results
+
+    Section `K <kept> <decoy calls> ok | changed <name>@<stage> …` (harness/c03_keep.go): every byte
+    slice and every decoded value the op obtained was kept alive while Marshal / MarshalGzipped /
+    Unmarshal / UnmarshalGzipped ran on other tiles, its input buffer was overwritten, a sibling
+    result was scribbled over and its spare capacity was written to.  "A returned value stays
+    what it was": any change is a failure of the property, whatever the other sections say. -/
+
+/-- `none`: fine; `some verdict` otherwise.  `need`: the op obtained results, the section must be there. -/
+def keptVerdict (k : Option Toks) (need : Bool) : Option String :=
+  match k with
+  | some (_ :: _ :: "ok" :: []) => none
+  | some (_ :: _ :: "changed" :: names) => some ("propfail kept-result " ++ " ".intercalate names)
+  | some _ => some "bad output K section"
+  | none => if need then some "bad output no K section" else none
+
 /-! ### round trip -/
 
 /-- the members of a collection with nested collections flattened -/
@@ -381,6 +487,8 @@ def handleRT (inp out : Toks) : String :=
            if q ≥ 512 then " gz512" else if q ≥ 128 then " gz128" else if q ≥ 32 then " gz32" else ""
          | _, _ => "")
       | _ => ""
+    if let some v := keptVerdict (sec "K") (mcls == "ok" && implU.isSome) then v else
+    if let some t := inp.find? (fun t => t.startsWith "j:x" && !jsonTokOK t) then s!"bad json-text of {(t.take 60).toString} is not what the driver derives" else
     if d != "1" then (if d == "g" then "propfail deterministic gzipped" else "propfail deterministic") else
     if !(layers.all fun l => (layerVals l).all twinOK) then "diff twin f32to64/i2f is not the exact conversion" else
     if !oriExactHolds layers then "diff twin float shoelace inexact on a ring of small extent (oriExactDomain)" else
@@ -400,7 +508,8 @@ def handleRT (inp out : Toks) : String :=
          else if clash then "ok wf negzero"
          else if (layerVals <$> layers).any (fun vs => vs.any isNegZero) then "ok wf lone-negzero"
          else if hasFarSmallRing layers then "ok wf far-small-ring" ++ gzTag
-         else if hasSingleColl layers then "ok wf coll1" ++ gzTag else "ok wf" ++ gzTag)
+         else if hasSingleColl layers then "ok wf coll1" ++ gzTag
+         else if inp.any (fun t => t.startsWith "j:x") then "ok wf jsonx" else "ok wf" ++ gzTag)
       else
         let why := if mcls != "ok" then "marshal-" ++ mcls else if implU.map normZ != some want then "unmarshal" else "gzipped"
         -- A known class is named ONLY when the implementation does exactly what the model (which
@@ -544,6 +653,8 @@ def handleWire (inp out : Toks) : String :=
   let sec (k : String) : Option Toks := (secs.find? fun s => s.head? == some k).map (·.drop 1)
   match sec "M", sec "D" with
   | some [mcls], some [d] =>
+    if let some v := keptVerdict (sec "K") (mcls == "ok" && (sec "U").isSome) then v else
+    if let some t := inp.find? (fun t => t.startsWith "j:x" && !jsonTokOK t) then s!"bad json-text of {(t.take 60).toString} is not what the driver derives" else
     if d != "1" then "propfail deterministic" else
     let mvt := marshalVT layers
     if classOf mvt != mcls then s!"diff M {classOf mvt}" else
@@ -584,11 +695,15 @@ def handleWire (inp out : Toks) : String :=
     `ProtoWire.unmarshalBytes`.  Property: no panic. -/
 def handleWireH (inp out : Toks) : String :=
   match inp, out with
-  | [hx], "U" :: u =>
+  | [hx], "U" :: _ =>
+    let secs := splitSemi out
+    let sec (k : String) : Option Toks := (secs.find? fun s => s.head? == some k).map (·.drop 1)
+    let u := (sec "U").getD []
     match hexBytes (if hx == "empty" then [] else hx.toList) with
     | none => "bad hex"
     | some data =>
       let implU := join u
+      if let some v := keptVerdict (sec "K") true then v else
       if implU.startsWith "panic" then "propfail panic unmarshal" else
       let implErr := implU.startsWith "err"
       let len := if data.length ≤ 2 then "triv-short" else "hostile"
@@ -618,8 +733,9 @@ def handleWireH (inp out : Toks) : String :=
     marshal.  Compared on the hex tokens. -/
 def handleRawStr (inp out : Toks) : String :=
   match inp, out with
-  | [n, k, v], [cls, n', k', v', g, d] =>
+  | [n, k, v], [cls, n', k', v', g, d, kp] =>
     if cls.startsWith "panic" then "propfail panic rawstr"
+    else if kp != "kept" then s!"propfail kept-result rawstr {kp}"
     else if d != "1" then "propfail deterministic rawstr"
     else if cls != "ok" then s!"propfail rawstr {cls}"
     else if n' != n || k' != k || v' != v then "propfail rawstr roundtrip"
@@ -629,6 +745,24 @@ def handleRawStr (inp out : Toks) : String :=
       if utf8 then "ok rawstr utf8" else "ok rawstr non-utf8"
   | _, cls :: _ => if cls.startsWith "panic" then "propfail panic rawstr" else "bad rawstr"
   | _, _ => "bad rawstr"
+
+/-- `newlayers`: `mvt.Marshal(mvt.NewLayers(m))` repeated on one map `m` (the way the package
+    documentation builds a tile).  No model: the clause is determinism — the bytes are a function
+    of the map — and that every output decodes to the map's layers (as a set: names, version 1,
+    extent 4096, the features in order). -/
+def handleNewLayers (inp out : Toks) : String :=
+  let secs := splitSemi out
+  let sec (k : String) : Option Toks := (secs.find? fun s => s.head? == some k).map (·.drop 1)
+  match inp, sec "N", sec "S" with
+  | _ :: nl :: _, some [dist, reps], some [s] =>
+    if s != "1" then "propfail newlayers-roundtrip"
+    else if dist != "1" then s!"propfail newlayers-order {dist} different tiles in {reps} calls on one map"
+    else if nl == "0" || nl == "1" then "ok triv-newlayers"
+    else "ok newlayers"
+  | _, _, _ =>
+    match out with
+    | cls :: _ => if cls.startsWith "panic" then "propfail panic newlayers" else s!"bad newlayers {cls}"
+    | [] => "bad newlayers"
 
 def handle (ts : Toks) : String :=
   match ts with
@@ -640,6 +774,7 @@ def handle (ts : Toks) : String :=
     | "wire" => handleWire inp out
     | "wireh" => handleWireH inp out
     | "rawstr" => handleRawStr inp out
+    | "newlayers" => handleNewLayers inp out
     | _ => "bad op " ++ op
   | [] => "bad empty"
 
